@@ -83,7 +83,7 @@ def decVariant (pool : Array Oracle) (s : String) : Option Variant :=
   match s.splitOn ";" with
   | [fls, avail, opts, rows, cols] =>
     match fls.splitOn " ", opts.splitOn " " with
-    | [lr, mc], [bx, sh, sf, se, sl, leading, pt, pr, pb, pl, pe, cp, ex, w, mw, ti, ca] =>
+    | [lr, mc, fr], [bx, sh, sf, se, sl, leading, pt, pr, pb, pl, pe, cp, ex, w, mw, ti, ca] =>
       match lookupBox bx with
       | none => none
       | some box =>
@@ -107,7 +107,7 @@ def decVariant (pool : Array Oracle) (s : String) : Option Variant :=
           let okShape := colsL.all (fun co =>
             co.2.length == co.1.cells.length + (if showHeader then 1 else 0) + (if showFooter then 1 else 0))
           if !okShape then none
-          else some { fl := { leadingRepeat := decBool lr, minWidthCapsExpand := decBool mc }, avail := decInt avail, t := t,
+          else some { fl := { leadingRepeat := decBool lr, minWidthCapsExpand := decBool mc, fixedRawMaximum := decBool fr }, avail := decInt avail, t := t,
                       colOracles := colsL.map (·.2), titleO, captionO,
                       wf := colsL.all (fun co => co.1.cells.length ≤ rowsL.length) }
     | _, _ => none
@@ -119,7 +119,7 @@ def Variant.inRange (v : Variant) (r : Rendered) : Bool :=
   let maxWidth := t.width.getD v.avail - t.extraWidth
   let firstOk := maxWidth < 1 ||
     ((t.columns.zip v.colOracles).all (fun co => co.1.width.isSome || co.2.all (·.has maxWidth.toNat)))
-  let reOk := match t.firstWidths maxWidth with
+  let reOk := match t.firstWidths v.fl maxWidth with
     | some ws => if ws.sum > maxWidth then
         -- fixed-width columns are not consulted on re-measure either, but asking is harmless
         ((t.shrinkPre ws maxWidth).1.zip (t.columns.zip v.colOracles)).all
